@@ -142,6 +142,28 @@ int main(int argc, char** argv) {
     // force the edge-count parity (add one edge; an empty node set cannot have edges)
     if (g.numNodes && (g.numEdges() % 2) != (c.odd ? 1u : 0u))
       g.addEdge(rng.below(g.numNodes), rng.below(g.numNodes));
+    // every so often: file length an exact multiple of the page size (the end of the file mapping is
+    // the end of a page; a reader or copy that touches one byte too many faults). Edge pairs keep the
+    // parity; isolated nodes at the end supply the remaining multiples of 8 bytes.
+    bool pageAligned = false;
+    if (g.numNodes && rng.below(10) == 0) {
+      auto sizeOf = [&](uint64_t nn, uint64_t mm) {
+        return 32 + 8 * nn + (c.version == 1 ? 4 * (mm + mm % 2) : 8 * mm) + c.width * mm;
+      };
+      uint64_t n0 = g.numNodes, m0 = g.numEdges();
+      for (uint64_t k = 0; k <= 1024 && !pageAligned; k += 2) {
+        uint64_t sz = sizeOf(n0, m0 + k), target = (sz + 4095) / 4096 * 4096;
+        if ((target - sz) % 8 == 0 && (target - sz) / 8 <= 600) {
+          for (uint64_t i = 0; i < k; ++i)
+            g.addEdge(rng.below(n0), rng.below(n0));
+          for (uint64_t j = 0; j < (target - sz) / 8; ++j) {
+            g.numNodes++;
+            g.adj.emplace_back();
+          }
+          pageAligned = true;
+        }
+      }
+    }
     ref::assign_data(g, rng.next(), mode == ref::DataMode::Zero ? ref::DataMode::Unique : mode, c.width);
     c.odd = g.numEdges() % 2;
     if (isLayout && !c.odd) { // empty node set: nothing to disagree about
@@ -164,13 +186,13 @@ int main(int argc, char** argv) {
       unlink(f.c_str());
     bool nontrivial = n >= 2 && m >= 2;
     std::string sig = c.comp + "|v" + std::to_string(c.version) + "|w" + std::to_string(c.width) + (c.odd ? "|odd" : "|even") +
-                      "|" + c.g.kind + "|" + sizeClass(n) + "|var" + std::to_string(c.variant) + c.sigExtra;
+                      "|" + c.g.kind + "|" + sizeClass(n) + "|var" + std::to_string(c.variant) + (pageAligned ? "|page" : "") + c.sigExtra;
     H.end(k, sig, nontrivial,
           J().kv("edges_compared", c.edgesCompared).kv("nodes_compared", c.nodesCompared).kv("files_decoded_by_reference", c.filesDecoded)
               .kv("files_written_by_library", c.filesWrittenByLib).kv("library_reads", c.libReads).kv("sub_ranges_read", c.partRanges)
               .kv("oc_segments_loaded", c.segments).kv("nodes_same_order", c.orderSame).kv("nodes_other_order", c.orderDiff)
               .kv("v2_cases", (int)(c.version == 2)).kv("v2_odd_edge_count_with_data_cases", (int)(c.version == 2 && c.odd && c.width))
-              .kv("odd_edge_count_with_data_cases", (int)(c.odd && c.width)).kv("oracle_violations", (uint64_t)c.fired.size()).str());
+              .kv("odd_edge_count_with_data_cases", (int)(c.odd && c.width)).kv("page_aligned_file_cases", (int)pageAligned).kv("oracle_violations", (uint64_t)c.fired.size()).str());
   }
   rmTree(dir);
   return 0;
